@@ -13,6 +13,7 @@ _worker / parallel_merging / _merge_worker run unmodified, in-process.
                       multiprocessing.queues.Queue); get() blocks when empty.
   helpers.sleep       lowest-priority yield (the caller resumes when nobody else can run)
   helpers.datetime    virtual clock
+  helpers.psutil      cpu_count() is an environment answer chosen by the explorer
 
 Every simulated operation is a scheduling point.  At each point the runnable
 processes are listed in canonical order (the running one first if it can go on,
@@ -375,15 +376,24 @@ class VirtualDatetime:
 class Sim:
     """Context manager installing the simulated context into sketchnu.helpers."""
 
-    def __init__(self, choices=(), assign=None, horizon=200000):
+    def __init__(self, choices=(), assign=None, horizon=200000, cpu_count=1):
         self.sched = Scheduler(choices, assign, horizon)
+        self.cpu_count = cpu_count  # environment answer of psutil.cpu_count()
 
     def __enter__(self):
         import logging
         import sketchnu.helpers as H
 
         self.H = H
-        self.saved = (H.get_context, H.sleep, H.datetime)
+        self.saved = (H.get_context, H.sleep, H.datetime, H.psutil)
+        n_cpu = self.cpu_count
+
+        class _PS:
+            @staticmethod
+            def cpu_count(logical=True):
+                return n_cpu
+
+        H.psutil = _PS
         ctx = SimContext(self.sched)
         sched = self.sched
         H.get_context = lambda method=None: ctx
@@ -397,6 +407,6 @@ class Sim:
 
     def __exit__(self, *exc):
         H = self.H
-        H.get_context, H.sleep, H.datetime = self.saved
+        H.get_context, H.sleep, H.datetime, H.psutil = self.saved
         self.sched.shutdown()
         return False
